@@ -22,12 +22,14 @@ CHECKS = {
     "C10": _node("^TestC10"),
     "C11": _node("^TestC11"),
     # the long-lived scenario (half a minute of real time) is a part of its own: parts run concurrently
-    "C12": _node("^TestC12", parts=[{"pkg": "node", "run": "^TestC12(Close|InitFailure|Lives|CloseWithUnsentData|CloseWithManyChannels)$"},
+    "C12": _node("^TestC12", parts=[{"pkg": "node", "run": "^TestC12(Close|InitFailure|Lives|CloseWithUnsentData|CloseWithManyChannels|CloseRightAfterInitialize)$"},
                                     {"pkg": "node", "run": "^TestC12LongLived$"}]),
     "C13": _node("^TestC13"),
     "C14": _node("^TestC14"),
     "C15": _node("^TestC15", race=True),
-    "C16": _node("^TestC16"),
+    # the sender that keeps heartbeating for 28 s of real time is a part of its own (parts run concurrently)
+    "C16": _node("^TestC16", parts=[{"pkg": "node", "run": "^TestC16(Automatic|HeartbeatsForWhoeverIsLeft|RepeatInterval)$"},
+                                    {"pkg": "node", "run": "^TestC16LongLivedSender$"}]),
     "C03": _msg("^TestC03"),
     "C04": dict(_msg("^(Test|Fuzz)C04"), fuzz=[{"pkg": "msg", "target": "FuzzC04Read", "time": "150s"}]),
     "C17": _msg("^TestC17"),
